@@ -3,7 +3,7 @@ from __future__ import annotations
 
 from typing import Optional
 
-from .sym import NONE, conjuncts
+from .sym import AND, NONE, NOT, conjuncts
 
 LEN = ("builtin", "len")
 
@@ -43,3 +43,53 @@ def guarded_nonempty(live, x) -> bool:
 
 def guarded_empty(live, x) -> bool:
     return any(emptiness(c, x) is True for c in conjuncts(live))
+
+
+def existential(live, summ):
+    """Normal form of "some element violates c" path conditions.
+
+    `for e in X: if c(e): raise`, `if any(c(e) for e in X): raise`, `if not all(ok(e) for e in X): raise`,
+    `bad = [e for e in X if c(e)]; if bad: raise` (also `len(bad) > 0` ...) all say: exists e in X with c(e).
+    Returns (binders, condition): binders = [(loop id, iterable term)] outermost first, condition = the conjunction
+    over the bound elements (without the inloop markers)."""
+    binders = []
+    out = []
+    for cj in conjuncts(live):
+        if cj[0] == "inloop":
+            li = summ.loops.get(cj[1])
+            if li is not None:
+                binders.append((cj[1], li.iter))
+                out += list(li.conds) if li.kind == "comp" else []
+            continue
+        neg, t = False, cj
+        if t[0] == "not":
+            neg, t = True, t[1]
+        if t[0] == "call" and t[1] in (("builtin", "any"), ("builtin", "all")) and len(t[2]) == 1 and t[2][0][0] == "comp" \
+                and (t[1][1] == "any") != neg:
+            comp = t[2][0]
+            for lid, it, conds in comp[3]:
+                binders.append((lid, it))
+                out += list(conds)
+            out.append(comp[2] if not neg else NOT(comp[2]))
+            continue
+        # truthiness / non-emptiness of a filtered comprehension
+        comp = None
+        if cj[0] == "comp":
+            comp = cj
+        else:
+            for x in _subterms_comp(cj):
+                if emptiness(cj, x) is False:
+                    comp = x
+                    break
+        if comp is not None and comp[1] in ("list", "set", "gen", "dict") and cj[0] != "not":
+            for lid, it, conds in comp[3]:
+                binders.append((lid, it))
+                out += list(conds)
+            continue
+        out.append(cj)
+    return binders, AND(*out)
+
+
+def _subterms_comp(t):
+    from .sym import walk
+    return [x for x in walk(t) if x[0] == "comp"]
